@@ -645,6 +645,55 @@ fn is_inside(e: &Element, top: &Element) -> bool {
     false
 }
 
+/// `ArxmlFile::serialize()` rewrites the xsi:schemaLocation attribute of the root element to the file's version as a side
+/// effect; the oracles must not disturb the dump, so the attribute is put back afterwards
+fn file_ser(f: &ArxmlFile) -> Result<String, AutosarDataError> {
+    let root = f.model().map(|m| m.root_element());
+    let saved = root.as_ref().ok().and_then(|r| r.attribute_value(AttributeName::xsiSchemalocation));
+    let s = f.serialize();
+    if let (Ok(r), Some(v)) = (&root, saved) {
+        if r.attribute_value(AttributeName::xsiSchemalocation).as_ref() != Some(&v) {
+            let _ = r.set_attribute(AttributeName::xsiSchemalocation, v);
+        }
+    }
+    s
+}
+
+/// `<X a="b">` + whitespace + `</X>` (an element all of whose children live in other files) is the same content as `<X a="b"/>`
+fn norm_empty(t: &str) -> String {
+    let mut s = t.to_string();
+    loop {
+        let mut changed = false;
+        let mut from = 0;
+        while let Some(off) = s[from..].find("</") {
+            let close = from + off;
+            let Some(gt) = s[close..].find('>') else { break };
+            let name = s[close + 2..close + gt].to_string();
+            let before = s[..close].trim_end();
+            if before.len() < close && before.ends_with('>') && !before.ends_with("/>") {
+                if let Some(lt) = before.rfind('<') {
+                    let tag = &before[lt + 1..before.len() - 1];
+                    if !tag.starts_with('/') && !tag.starts_with('!') && tag.split(' ').next() == Some(name.as_str()) {
+                        let new = format!("{}/>{}", &before[..before.len() - 1], &s[close + gt + 1..]);
+                        from = before.len();
+                        s = new;
+                        changed = true;
+                        continue;
+                    }
+                }
+            }
+            from = close + 2;
+        }
+        if !changed {
+            return s;
+        }
+    }
+}
+
+fn file_ser_norm(f: &ArxmlFile) -> Option<String> {
+    file_ser(f).ok().map(|t| norm_empty(&t))
+}
+
 fn quiet<T>(f: impl FnOnce() -> T) -> Option<T> {
     catch_unwind(AssertUnwindSafe(f)).ok()
 }
@@ -804,13 +853,16 @@ impl Checker {
             if quiet(|| e.file_membership().is_ok()).unwrap_or(true) {
                 bad.push("file_membership");
             }
-            if quiet(|| e.create_sub_element(ElementName::Category).is_ok()).unwrap_or(true) {
+            // children dropped by `cdata` on a MIXED element keep their parent pointer (known finding): a successful rename
+            // through such a handle would rewrite the live index, so only the read-only calls are probed for them
+            let read_only = self.dropped.contains(&i);
+            if !read_only && quiet(|| e.create_sub_element(ElementName::Category).is_ok()).unwrap_or(true) {
                 bad.push("create_sub_element");
             }
-            if quiet(|| e.set_item_name("zz").is_ok()).unwrap_or(true) {
+            if !read_only && quiet(|| e.set_item_name("zz").is_ok()).unwrap_or(true) {
                 bad.push("set_item_name");
             }
-            if let Some(v) = &victim {
+            if let Some(v) = victim.as_ref().filter(|_| !read_only) {
                 if quiet(|| e.remove_sub_element(v.clone()).is_ok()).unwrap_or(true) {
                     bad.push("remove_sub_element");
                 }
@@ -1036,7 +1088,7 @@ impl Checker {
             }
             for f in m.files() {
                 let j = self.w.files.iter().position(|x| *x == f).unwrap_or(usize::MAX);
-                match f.serialize() {
+                match file_ser(&f) {
                     Ok(t) => {
                         let fresh = AutosarModel::new();
                         match quiet(|| fresh.load_buffer(t.as_bytes(), "chk.arxml", false)) {
@@ -1051,6 +1103,8 @@ impl Checker {
                             None => out.push(Failure::new("C10", "file-load", format!("file f{j}: loading the serialize() output panics"))),
                         }
                     }
+                    // documented: a file that does not even contain the root element cannot be serialized
+                    Err(AutosarDataError::EmptyFile) if !self.eff_files(&s.pre[0].1).unwrap_or_default().contains(&j) => {}
                     Err(e) => out.push(Failure::new("C10", "file-serialize", format!("file f{j} of m{}: serialize() fails: {e}", s.k))),
                 }
             }
@@ -1067,7 +1121,7 @@ impl Checker {
         let root = self.w.root_id[k]?;
         let before = self.live.get(k)?.clone();
         let doomed: Vec<usize> = before.iter().copied().filter(|i| *i != root && self.eff_files(&self.w.elems[*i]) == Some(vec![j])).collect();
-        let others = m.files().filter(|x| *x != f).map(|x| (x.clone(), x.serialize().ok())).collect::<Vec<_>>();
+        let others = m.files().filter(|x| *x != f).map(|x| (x.clone(), file_ser_norm(&x))).collect::<Vec<_>>();
         Some(RmFilePre { k, last_file: others.is_empty(), doomed, before, others })
     }
 
@@ -1081,7 +1135,7 @@ impl Checker {
             out.push(Failure::new("C10", "rmfile-elements", format!("after `{req}`: removed although also in another file: {:?}; kept although only in the removed file: {:?}", extra, missing)));
         }
         for (f, ser) in &p.others {
-            if f.serialize().ok() != *ser {
+            if file_ser_norm(f) != *ser {
                 out.push(Failure::new("C10", "rmfile-other-file", format!("after `{req}`: the text of file f{} changed", self.w.files.iter().position(|x| x == f).unwrap_or(usize::MAX))));
             }
         }
@@ -1089,7 +1143,7 @@ impl Checker {
 
     // ---- C13 ----
     fn side_of(&self, handles: &[Element], src: &Element, cp: &Element) -> Option<Side> {
-        if handles.is_empty() {
+        if handles.is_empty() || is_inside(cp, src) || is_inside(src, cp) {
             return None;
         }
         if handles.iter().all(|h| is_inside(h, cp)) {
@@ -1118,7 +1172,7 @@ impl Checker {
                 if !ok_suffix {
                     out.push(Failure::new("C13", "copy-name", format!("`{req}`: the copy of {sn:?} is named {cn:?}")));
                 }
-                got = got.replacen(&format!("<SHORT-NAME>{cn}</SHORT-NAME>"), &format!("<SHORT-NAME>{sn}</SHORT-NAME>"), 1);
+                got = got.replacen(&format!(">{cn}</SHORT-NAME>"), &format!(">{sn}</SHORT-NAME>"), 1);
             }
             if got != src_ser {
                 out.push(Failure::new("C13", "copy-differs", format!("`{req}`: serialized copy differs from the serialized source (same version)")));
@@ -1162,7 +1216,7 @@ impl Checker {
             Some(Ok(d)) => {
                 for f in m.files() {
                     let other = d.files().find(|x| x.filename() == f.filename());
-                    let same = other.as_ref().is_some_and(|o| o.serialize().ok() == f.serialize().ok());
+                    let same = other.as_ref().is_some_and(|o| file_ser(o).ok() == file_ser(&f).ok());
                     if !same {
                         out.push(Failure::new("C13", "dup-text", format!("duplicate() of m{k}: file {:?} serializes differently in the duplicate (or is missing)", f.filename())));
                     }
@@ -1186,7 +1240,7 @@ impl Checker {
                 if self.w.dump() != before {
                     out.push(Failure::new("C13", "dup-shared", format!("duplicate() of m{k}: edits of the duplicate changed the original")));
                 }
-                let sers = d.files().map(|f| { let s = f.serialize().unwrap_or_default(); (f, s) }).collect();
+                let sers = d.files().map(|f| { let s = file_ser(&f).unwrap_or_default(); (f, s) }).collect();
                 self.dups.push((d, sers));
                 if self.dups.len() > 2 {
                     self.dups.remove(0);
@@ -1417,7 +1471,7 @@ impl Checker {
             let ids = &self.w.ids;
             self.pairs.retain(|(a, b)| ids.get(a).is_some_and(|i| reach.contains(i)) && ids.get(b).is_some_and(|i| reach.contains(i)));
             for (di, (_, sers)) in self.dups.iter().enumerate() {
-                if sers.iter().any(|(f, s)| f.serialize().ok().as_ref() != Some(s)) {
+                if sers.iter().any(|(f, s)| file_ser(f).ok().as_ref() != Some(s)) {
                     out.push(Failure::new("C13", "dup-follows-original", format!("`{req}` on the original changed the text of duplicate #{di}")));
                 }
             }
@@ -1613,6 +1667,9 @@ impl Reporter {
         let path = format!("{}/fail_{n}.req", self.out);
         if n < 300 {
             let _ = std::fs::write(&path, reqs.join("\n") + "\n");
+            if reqs.len() != hist.len() {
+                let _ = std::fs::write(format!("{}/fail_{n}.full.req", self.out), hist.iter().map(|x| x.0.clone()).collect::<Vec<_>>().join("\n") + "\n");
+            }
         }
         let note = if do_shrink && !reproduced { "; NOT reproduced when replayed from scratch" } else { "" };
         k.fail(format!("{} [{label} kind={}; {} requests, shrunk to {}{note}; replay: avharness world --kind {} --replay {path}]", f.text(), kind.name(), hist.len(), reqs.len(), kind.name()));
@@ -1692,6 +1749,9 @@ struct Gen {
     allow_rmself: bool,
     allow_dangling_rename: bool,
     allow_last_file: bool,
+    allow_stale_file: bool,
+    allow_root_attr: bool,
+    allow_split_move: bool,
 }
 
 enum Spec {
@@ -2135,6 +2195,12 @@ impl Gen {
         false
     }
 
+    /// would moving `x` below `p` leave a descendant of `x` restricted to a file that `p` is not in? (see the report)
+    fn split_move(&self, p: &Element, x: &Element) -> bool {
+        let Ok((_, dest)) = p.file_membership() else { return false };
+        x.elements_dfs().skip(1).any(|(_, e)| matches!(e.file_membership(), Ok((true, set)) if !set.is_subset(&dest)))
+    }
+
     fn pos_suffix(&mut self, p: &Element, n: ElementName) -> String {
         if !self.rng.chance(3, 10) {
             return String::new();
@@ -2175,6 +2241,9 @@ impl Gen {
             }
         }
         let (mut p, c) = (self.pick_handle(), self.pick_handle());
+        if self.allow_rmself && self.rng.chance(1, 3) {
+            p = c;
+        }
         if p == c && !self.allow_rmself {
             // `remove e<x> e<x>` never returns (see the report); generated only in flagged histories
             p = self.parent_of(c).unwrap_or(0);
@@ -2226,7 +2295,7 @@ impl Gen {
     }
 
     fn op_rmcdata(&mut self) {
-        let x = if self.rng.chance(4, 5) { self.pick_where(|e| e.content_type() == ContentType::CharacterData && e.character_data().is_some()).unwrap_or(0) } else { self.pick_handle() };
+        let x = if self.rng.chance(4, 5) { self.pick_where(|e| e.content_type() == ContentType::CharacterData && e.character_data().is_some() && e.element_name() != ElementName::ShortName).unwrap_or(0) } else { self.pick_handle() };
         self.m(format!("rmcdata e{x}"));
     }
 
@@ -2248,13 +2317,26 @@ impl Gen {
 
     fn op_setref(&mut self) {
         let x = if self.rng.chance(17, 20) { self.pick_where(|e| e.is_reference()).unwrap_or(0) } else { self.pick_handle() };
-        let t = if self.rng.chance(17, 20) { self.pick_where(|e| e.is_identifiable()).unwrap_or(0) } else { self.pick_handle() };
+        let xe = self.el(x);
+        let dests: Vec<EnumItem> = match xe.element_type().find_attribute_spec(AttributeName::Dest).map(|s| s.spec) {
+            Some(CharacterDataSpec::Enum { items }) => items.iter().map(|i| i.0).collect(),
+            _ => vec![],
+        };
+        let fitting = if self.rng.chance(3, 4) { self.pick_where(|e| e.is_identifiable() && (e.element_name().to_str().parse::<EnumItem>().is_ok_and(|d| dests.contains(&d)) || xe.element_type().reference_dest_value(&e.element_type()).is_some())) } else { None };
+        let t = match fitting {
+            Some(t) => t,
+            None => if self.rng.chance(17, 20) { self.pick_where(|e| e.is_identifiable()).unwrap_or(0) } else { self.pick_handle() },
+        };
         self.m(format!("setref e{x} e{t}"));
     }
 
     fn op_attr(&mut self, as_string: bool) {
         let x = if self.rng.chance(1, 2) { self.pick_where(|e| e.is_reference() || e.content_type() == ContentType::Mixed).unwrap_or(0) } else { self.pick_handle() };
         let e = self.el(x);
+        if matches!(e.parent(), Ok(None)) && !self.allow_root_attr {
+            // xmlns / xsi:schemaLocation of <AUTOSAR>: edited only in flagged histories (see the report)
+            return;
+        }
         let ver = self.ver(&e);
         let specs: Vec<(AttributeName, &'static CharacterDataSpec)> = e.element_type().attribute_spec_iter().filter(|(_, s, _)| !(as_string && matches!(s, CharacterDataSpec::Float))).map(|(a, s, _)| (a, s)).collect();
         if specs.is_empty() || !self.rng.chance(17, 20) {
@@ -2287,6 +2369,9 @@ impl Gen {
 
     fn op_rmattr(&mut self) {
         let x = if self.rng.chance(4, 5) { self.pick_where(|e| e.attributes().next().is_some()).unwrap_or(0) } else { self.pick_handle() };
+        if matches!(self.el(x).parent(), Ok(None)) && !self.allow_root_attr {
+            return;
+        }
         let have: Vec<AttributeName> = self.el(x).attributes().map(|a| a.attrname).collect();
         let a = if !have.is_empty() && self.rng.chance(4, 5) { id16(have[self.rng.below(have.len())]) as usize } else { self.rng.below(limits().1 as usize) };
         self.m(format!("rmattr e{x} {a}"));
@@ -2294,6 +2379,9 @@ impl Gen {
 
     fn op_comment(&mut self) {
         let x = self.pick_handle();
+        if matches!(self.el(x).parent(), Ok(None)) && !self.allow_root_attr {
+            return;
+        }
         let t = ["-", "note", "a--b", "x -- y --", "c"][self.rng.below(5)];
         self.m(format!("comment e{x} {}", if t == "-" { "-".to_string() } else { hx(t) }));
     }
@@ -2307,7 +2395,7 @@ impl Gen {
                 let xe = self.el(x);
                 let name = xe.element_name();
                 let xp = xe.parent().ok().flatten();
-                let (allow_anc, allow_col) = (self.allow_ancestor, self.allow_collision);
+                let (allow_anc, allow_col, allow_split) = (self.allow_ancestor, self.allow_collision, self.allow_split_move);
                 let saved = self.scope.take();
                 // destinations: anywhere in the world (the scope only restricts the source)
                 let dests: Vec<usize> = self.live_ids().into_iter().filter(|i| {
@@ -2327,6 +2415,9 @@ impl Gen {
                         return false;
                     }
                     if !xe.is_identifiable() && !allow_col && !same_parent && self.would_collide(p, &xe) {
+                        return false;
+                    }
+                    if !copy && !same_parent && !allow_split && self.split_move(p, &xe) {
                         return false;
                     }
                     true
@@ -2361,6 +2452,9 @@ impl Gen {
             }
         }
         if !xe.is_identifiable() && !self.allow_collision && self.would_collide(&pe, &xe) {
+            return;
+        }
+        if !copy && !self.allow_split_move && self.split_move(&pe, &xe) {
             return;
         }
         let pos = if self.rng.chance(1, 4) { format!(" {}", self.rng.below(5)) } else { String::new() };
@@ -2401,7 +2495,8 @@ impl Gen {
             }
             6 => self.req(format!("checkrefs m{k}")),
             7 => {
-                let n = [ElementName::ArPackage, ElementName::Elements, ElementName::Category, ElementName::System, ElementName::ShortName][self.rng.below(5)];
+                let valid: Vec<ElementName> = self.el(x).list_valid_sub_elements().into_iter().map(|v| v.element_name).collect();
+                let n = if !valid.is_empty() && self.rng.chance(4, 5) { valid[self.rng.below(valid.len())] } else { [ElementName::ArPackage, ElementName::Elements, ElementName::Category, ElementName::System, ElementName::ShortName][self.rng.below(5)] };
                 self.req(format!("range e{x} {}", id16(n)))
             }
             _ => self.req(format!("valid e{x}")),
@@ -2420,7 +2515,7 @@ impl Gen {
         };
         let mf = self.model_files(0);
         let all = self.ck.w.files.len();
-        let f = if !mf.is_empty() && self.rng.chance(9, 10) { mf[self.rng.below(mf.len())] } else { self.rng.below(all.max(1)) };
+        let f = if !mf.is_empty() && (!self.allow_stale_file || self.rng.chance(4, 5)) { mf[self.rng.below(mf.len())] } else { self.rng.below(all.max(1)) };
         if !add && !self.allow_last_file {
             // removing the root from its last file empties the model; only in flagged histories
             let e = self.el(x);
@@ -2436,7 +2531,7 @@ impl Gen {
             return;
         }
         let all = self.ck.w.files.len();
-        let f = if !mf.is_empty() && self.rng.chance(9, 10) { mf[self.rng.below(mf.len())] } else { self.rng.below(all.max(1)) };
+        let f = if !mf.is_empty() && (!self.allow_stale_file || self.rng.chance(4, 5)) { mf[self.rng.below(mf.len())] } else { self.rng.below(all.max(1)) };
         self.m(format!("rmfile m0 f{f}"));
     }
     fn op_mkfile(&mut self) {
@@ -2495,7 +2590,9 @@ impl Gen {
         self.scope = None;
         let live = self.live_ids();
         let stale = self.ck.stale_ids();
-        let mut sample: Vec<usize> = (0..12.min(live.len())).map(|_| live[self.rng.below(live.len())]).collect();
+        let mut sample: Vec<usize> = (0..8.min(live.len())).map(|_| live[self.rng.below(live.len())]).collect();
+        let idents: Vec<usize> = live.iter().copied().filter(|i| self.ck.w.elems[*i].is_identifiable()).collect();
+        sample.extend((0..8.min(idents.len())).map(|_| idents[self.rng.below(idents.len())]));
         sample.extend(stale.iter().take(3));
         for x in &sample {
             self.req(format!("path e{x}"));
@@ -2520,7 +2617,8 @@ impl Gen {
         }
         for _ in 0..3 {
             if let Some(p) = self.pick_where(|e| e.content_type() != ContentType::CharacterData) {
-                let n = [ElementName::ArPackage, ElementName::Elements, ElementName::Category, ElementName::System, ElementName::ShortName, ElementName::FibexElementRefConditional][self.rng.below(6)];
+                let valid: Vec<ElementName> = self.el(p).list_valid_sub_elements().into_iter().map(|v| v.element_name).collect();
+                let n = if !valid.is_empty() && self.rng.chance(4, 5) { valid[self.rng.below(valid.len())] } else { [ElementName::ArPackage, ElementName::Elements, ElementName::Category, ElementName::ShortName][self.rng.below(4)] };
                 self.req(format!("range e{p} {}", id16(n)));
                 self.req(format!("valid e{p}"));
             }
@@ -2713,7 +2811,7 @@ fn spawn_history(seed: u64, kind: Kind, thorough: bool, prop: Option<String>) ->
     std::thread::spawn(move || {
         let mut rng = Rng::new(seed);
         let mut flag = |pct: u64| rng.chance(pct, 1000);
-        let (a, b, c, d, e, f) = (flag(15), flag(15), flag(15), flag(7), flag(15), flag(30));
+        let (a, b, c, d, e, f, f2, f3, f4) = (flag(15), flag(15), flag(15), flag(7), flag(15), flag(12), flag(12), flag(12), flag(12));
         let mut g = Gen {
             rng,
             ck: Checker::new(prop, kind),
@@ -2730,6 +2828,9 @@ fn spawn_history(seed: u64, kind: Kind, thorough: bool, prop: Option<String>) ->
             allow_rmself: d,
             allow_dangling_rename: e,
             allow_last_file: f,
+            allow_stale_file: f2,
+            allow_root_attr: f3,
+            allow_split_move: f4,
         };
         let r = catch_unwind(AssertUnwindSafe(|| g.history()));
         let mut o = sh2.lock().unwrap();
